@@ -198,7 +198,47 @@ def correspond(ctx):
     for kind in BOUNDED:
         for t in range(2 if not ctx.thorough else 6):
             adversarial(ctx, kind, rng, 2000 if not ctx.thorough else 10000)
+    for name, mk in STRATEGY_MANAGERS:
+        for t in range(3 if not ctx.thorough else 20):
+            strategy_bound(ctx, rng, name, mk, rng.randint(40, 120))
     ctx.notes["bound_checked_on_implementation"] = "exact rational evaluation of the property's bound at every prefix of every run (test)"
+
+
+STRATEGY_MANAGERS = [("FixedUncertainty", "fixed"), ("VariableUncertainty", "var"), ("RandomVariableUncertainty", "randvar"), ("Split", "split"),
+                     ("VariableUncertainty", "random"), ("StreamProbabilisticAL", "split")]
+
+
+def strategy_bound(ctx, rng, name, mgr_kind, n):
+    """The bound also holds when a window-based manager is driven the way users drive it: handed to a stream strategy as
+    `budget_manager=<instance>` (the strategy works on its own copy and must keep *that* copy across calls; seed R8C04).
+    A test on the implementation: granted positions of a chunked query -> update run against the exact rational bound."""
+    b = rng.choice([0.125, 0.25, 0.5])
+    seed = rng.randrange(2**31 - 1)
+    qs = S.make_strategy(name, mgr_kind, b, seed)
+    cand = S.gen_candidates(rng, n)
+    chunks = S.gen_chunks(rng, n, maxc=4)
+    grants, off = [], 0
+    try:
+        with np.errstate(all="ignore"):
+            for c in chunks:
+                ch = cand[off:off + c]
+                idx, ut = S.strat_query(qs, ch)
+                S.strat_update(qs, ch, idx, ut)
+                grants += [off + int(i) for i in idx]
+                off += c
+    except Exception as e:  # noqa: BLE001
+        ctx.count("strategy_bound_run_raised:" + type(e).__name__)
+        return
+    params = dict(w=4, b=b)                      # make_strategy builds every manager with w=4
+    bad = S.check_bound(mgr_kind, params, grants, n)
+    ctx.case(("strategy-bound", name, mgr_kind, seed, tuple(chunks)), len(grants) >= 1,
+             sample=dict(kind="strategy with explicit manager", strategy=name, manager=mgr_kind, budget=b, n=n, granted=len(grants)))
+    ctx.count("strategy_with_explicit_manager_runs")
+    if bad is not None:
+        ctx.violate(f"C04/{name}+{mgr_kind}/budget-exceeded",
+                    f"{name}(budget_manager={mgr_kind} instance, budget={b}, w=4): {bad['granted']} labels granted among the first {bad['n']} "
+                    f"instances, bound {bad['bound']:.4f}",
+                    dict(oracle="strategy-bound", strategy=name, manager=mgr_kind, budget=b, seed=seed, n=n, chunks=chunks, candidates=cand.tolist(), at=bad))
 
 
 def search(ctx):
@@ -218,6 +258,21 @@ def search(ctx):
 def replay(payload):
     ctx = vlib.Ctx("C04", "quick", 0)
     r = payload.get("replay", {})
+    if r.get("oracle") == "strategy-bound":
+        qs = S.make_strategy(r["strategy"], r["manager"], r["budget"], r["seed"])
+        cand = np.array(r["candidates"], dtype=float)
+        grants, off = [], 0
+        with np.errstate(all="ignore"):
+            for c in r["chunks"]:
+                ch = cand[off:off + c]
+                idx, ut = S.strat_query(qs, ch)
+                S.strat_update(qs, ch, idx, ut)
+                grants += [off + int(i) for i in idx]
+                off += c
+        bad = S.check_bound(r["manager"], dict(w=4, b=r["budget"]), grants, r["n"])
+        print("granted positions:", grants)
+        print("REPRODUCED: bound exceeded " + str(bad) if bad else "not reproduced")
+        return 1 if bad else 0
     spec = r.get("spec")
     if not spec:
         print("nothing to replay")
